@@ -95,10 +95,12 @@ func NewDnsConn(opt TraditionalDnsConnOpts, conn NetConn) *TraditionalDnsConn {
 func (dc *TraditionalDnsConn) exchange(ctx context.Context, q []byte) (*[]byte, error) {
 	select {
 	case <-dc.closeNotify:
+		(*tdcOneTimeExchanger)(dc).WithdrawReserved()
 		return nil, ErrTDCClosed
 	default:
 	}
 
+	// addQueueC releases the reservation.
 	assignedQid, respChan := dc.addQueueC()
 	if respChan == nil {
 		return nil, ErrTDCTooManyQueries
@@ -251,9 +253,13 @@ func (dc *TraditionalDnsConn) queueLen() int {
 // addQueueC assigns a qid and add it to the queue.
 // It returns a nil c if queue has too many queries.
 // Caller must call deleteQueueC to release the qid in queue.
+// The query must have been reserved by ReserveNewQuery. addQueueC converts
+// the reservation into the queue entry (or just releases it if no qid can be
+// assigned), so that a query is never counted twice against maxCq.
 func (dc *TraditionalDnsConn) addQueueC() (qid uint16, c chan *[]byte) {
 	c = make(chan *[]byte, 1) // readLoop must not block nor drop the reply if the caller is not waiting yet.
 	dc.queueMu.Lock()
+	dc.reservedQuery--
 	for i := 0; i < 100; i++ {
 		qid = dc.nextQid
 		dc.nextQid++
@@ -295,7 +301,7 @@ type tdcOneTimeExchanger TraditionalDnsConn
 var _ ReservedExchanger = (*tdcOneTimeExchanger)(nil)
 
 func (ote *tdcOneTimeExchanger) ExchangeReserved(ctx context.Context, q []byte) (resp *[]byte, err error) {
-	defer ote.WithdrawReserved()
+	// The reservation is released by exchange.
 	return (*TraditionalDnsConn)(ote).exchange(ctx, q)
 }
 
